@@ -304,7 +304,13 @@ class DAGRunConcurrentManager(DAGRunManagerLike):
 
             branch_nodes[edge.get(EdgeField.case_branch)] = pred_id
 
-        if selected_branch_label not in branch_nodes:
+        try:
+            has_branch = selected_branch_label in branch_nodes
+        except TypeError:
+            # An unhashable label cannot match any case
+            has_branch = False
+
+        if not has_branch:
             raise SwitchCaseDoesNotHaveBranchError(
                 f'The switch {switch_node_id} does not have a branch for the label {selected_branch_label!r}',
             )
